@@ -537,10 +537,29 @@ func (fid *SrvFid) DecRef() {
 
 	conn := fid.Fconn
 	conn.Lock()
-	delete(conn.fidpool, fid.fid)
+	if conn.fidpool[fid.fid] == fid {
+		delete(conn.fidpool, fid.fid)
+	}
 	conn.Unlock()
 
 	fid.destroy()
+}
+
+// Gives up the fid table's reference after a Tclunk or Tremove. The client
+// may not use the fid any more, and may bind its number again, as soon as it
+// sees the reply, also when other requests that name the fid are still
+// executing: the fid leaves the table and the file server hears about it now,
+// not when the last of those requests is done.
+func (fid *SrvFid) release() {
+	conn := fid.Fconn
+	conn.Lock()
+	if conn.fidpool[fid.fid] == fid {
+		delete(conn.fidpool, fid.fid)
+	}
+	conn.Unlock()
+
+	fid.destroy()
+	fid.DecRef()
 }
 
 // Tells the file server implementation that the fid is gone. A fid can be
